@@ -232,7 +232,9 @@ class Wallet:
                     return False
                 unlocked.append(account)
                 await account.deterministic_channel_keys.ensure_cache_primed()
-        self.encryption_password = password
+        if unlocked or self.encryption_password is None:
+            # a password that unlocked nothing was not checked against anything: keep the one in use
+            self.encryption_password = password
         return True
 
     def lock(self):
